@@ -24,6 +24,39 @@ import vlib
 PID = "C06"
 
 
+# the documented indicator(s) of each base strategy and which of the strategy's parameters configure them
+INDICATORS_OF = {
+    "strategy/trend.ApoStrategy": [("trend.Apo", [0, 1])],
+    "strategy/trend.AroonStrategy": [("trend.Aroon", [0])],
+    "strategy/trend.CciStrategy": [("trend.Cci", [0])],
+    "strategy/trend.DemaStrategy": [("trend.Dema", [0, 1]), ("trend.Dema", [2, 3])],
+    "strategy/trend.EnvelopeStrategy": [("trend.Envelope", [0])],
+    "strategy/trend.GoldenCrossStrategy": [("trend.Ema", [0]), ("trend.Ema", [1])],
+    "strategy/trend.KamaStrategy": [("trend.Kama", [0, 1, 2])],
+    "strategy/trend.KdjStrategy": [("trend.Kdj", [0, 1, 2, 3])],
+    "strategy/trend.MacdStrategy": [("trend.Macd", [0, 1, 2])],
+    "strategy/trend.QstickStrategy": [("momentum.Qstick", [0])],
+    "strategy/trend.SmmaStrategy": [("trend.Smma", [0]), ("trend.Smma", [1])],
+    "strategy/trend.TrimaStrategy": [("trend.Trima", [0]), ("trend.Trima", [1])],
+    "strategy/trend.TripleMovingAverageCrossoverStrategy": [("trend.Ema", [0]), ("trend.Ema", [1]), ("trend.Ema", [2])],
+    "strategy/trend.TrixStrategy": [("trend.Trix", [0])],
+    "strategy/trend.TsiStrategy": [("trend.Tsi", [0, 1])],
+    "strategy/trend.VwmaStrategy": [("trend.Vwma", [0]), ("trend.Sma", [1])],
+    "strategy/trend.AlligatorStrategy": [("trend.Smma", [0]), ("trend.Smma", [1]), ("trend.Smma", [2])],
+    "strategy/momentum.AwesomeOscillatorStrategy": [("momentum.AwesomeOscillator", [0, 1])],
+    "strategy/momentum.RsiStrategy": [("momentum.Rsi", [0])],
+    "strategy/momentum.StochasticRsiStrategy": [("momentum.StochasticRsi", [0])],
+    "strategy/momentum.TripleRsiStrategy": [("momentum.Rsi", [0]), ("trend.Sma", [1])],
+    "strategy/volatility.BollingerBandsStrategy": [("volatility.BollingerBands", [0])],
+    "strategy/volatility.SuperTrendStrategy": [("volatility.SuperTrend", [0])],
+    "strategy/volume.ChaikinMoneyFlowStrategy": [("volume.Cmf", [0])],
+    "strategy/volume.EaseOfMovementStrategy": [("volume.Emv", [0])],
+    "strategy/volume.ForceIndexStrategy": [("volume.Fi", [0])],
+    "strategy/volume.MoneyFlowIndexStrategy": [("volume.Mfi", [0])],
+    "strategy/volume.WeightedAveragePriceStrategy": [("volume.Vwap", [0])],
+}
+
+
 def main():
     t0 = time.time()
     tier = vlib.tier()
@@ -155,6 +188,65 @@ def main():
                         "%s: its actions are computed from the snapshot fields %s (recorded wiring of the real code), the documentation "
                         "says %s" % (c.key(), sorted(fs), sorted(doc)),
                         {"pipe": c.pipe, "cfg": c.cfg, "recorded_fields": sorted(fs), "documented_fields": sorted(doc)})
+    # ---------- (c) the documented indicator AT THE CONFIGURED PARAMETERS: the network the strategy wires must contain
+    # the network of its documented indicator(s) for the same parameters (stage kinds with their amounts), whatever else
+    # it adds - a constructor that ignores one of its arguments, or a default used where the configured value belongs,
+    # changes some stage's amount
+    import collections
+    import itertools
+    byname = {e["name"]: e for e in pe.catalogue()}
+    SIG_KINDS = {"XmaCore", "Skip", "Shift", "Head", "Last", "Buffered", "MovingStd", "KamaCore", "Echo", "First"}
+
+    def signature(wiring):
+        c = collections.Counter()
+        for st in wiring.get("stages", []):
+            if st.get("kind") in SIG_KINDS and st.get("par", 0) > 0:
+                c[(st["kind"], st.get("par", 0))] += 1
+        return c
+
+    ninc = 0
+    inc_cases = []
+    for e in entries:
+        inds = INDICATORS_OF.get(e["name"])
+        if not inds or not e["params"]:
+            continue
+        k = len(e["params"])
+        cand = [list(p_) for p_ in itertools.permutations([2, 3, 5, 7, 4, 6][:max(k, 2)], k)]
+        oks = pe.valid_many([(e["name"], c_) for c_ in cand])
+        cfg = next((c_ for c_, ok in zip(cand, oks) if ok and c_ != list(e["default"])), None)
+        if cfg is None:
+            continue
+        inc_cases.append((e, cfg, inds))
+    insts = []
+    for e, cfg, inds in inc_cases:
+        insts.append({"pipe": e["name"], "cfg": cfg, "cap": 0, "inputs": e["inputs"], "rec_len": 2 * sum(cfg) + 16})
+        for ind, idx in inds:
+            ie = byname[ind]
+            insts.append({"pipe": ind, "cfg": [cfg[i] for i in idx], "cap": 0, "inputs": ie["inputs"], "rec_len": 2 * sum(cfg) + 16})
+    irecs = pe.record(insts)
+    pos = 0
+    for e, cfg, inds in inc_cases:
+        srec = irecs[pos]
+        pos += 1
+        irs = irecs[pos:pos + len(inds)]
+        pos += len(inds)
+        if not srec or not srec.get("wiring") or any(not r_ or not r_.get("wiring") for r_ in irs):
+            machinery.append("%s%s: no recording for the documented-indicator comparison" % (e["name"], cfg))
+            continue
+        ssig = signature(srec["wiring"])
+        need = collections.Counter()
+        for r_ in irs:
+            need += signature(r_["wiring"])
+        ninc += 1
+        missing = need - ssig
+        if missing:
+            V.violation({"strategy": e["name"], "symptom": "indicator-parameters"},
+                        "%s%s: the network the strategy wires does not contain its documented indicator(s) %s at the configured parameters: "
+                        "stages %s of the indicator's own network are missing (the strategy has %s)" %
+                        (e["name"], cfg, ["%s%s" % (i_, [cfg[j] for j in idx]) for i_, idx in inds],
+                         sorted("%s(%d)x%d" % (k_[0], k_[1], v_) for k_, v_ in missing.items()),
+                         sorted("%s(%d)x%d" % (k_[0], k_[1], v_) for k_, v_ in ssig.items())),
+                        {"strategy": e["name"], "cfg": cfg, "missing": [[k_[0], k_[1], v_] for k_, v_ in missing.items()]})
     rc = V.finish()
     for m_ in machinery[:20]:
         print("MACHINERY: " + m_)
@@ -166,7 +258,7 @@ def main():
                 "distinct non-trivial = distinct non-exempt (strategy, valuation) pairs reached" % (len(meta), len(table), len(outs)),
         "positions_checked": nrows, "positions_exempt": nexempt,
         "table_coverage": {s.split(".")[-1]: "%d/%d" % (a, b) for s, (a, b) in sorted(reach.items())},
-        "no_documented_rule": rulesgen.NO_RULE, "field_sets_checked": nfields, "exhaustive": False, "known_findings_hit": V.hit},
+        "no_documented_rule": rulesgen.NO_RULE, "field_sets_checked": nfields, "exhaustive": False, "strategies_compared_with_their_indicator_network": ninc, "known_findings_hit": V.hit},
         time.time() - t0, len(V.new),
         assumptions=["spec/rules_documented.json transcribes the documentation; where the code adds undocumented conditions the "
                      "rule is checked as a necessary condition only (mode onlyif)",
